@@ -242,7 +242,18 @@ func (s *scen) forward(h *held, e msgEnd) error {
 }
 
 func (s *scen) failed(m *mangos.Message, body []byte, err error) {
+	s.failedH(m, nil, false, body, err)
+}
+
+// failedH also checks the header the caller supplied: a failed SendMsg leaves the whole message as it was.
+func (s *scen) failedH(m *mangos.Message, hdr []byte, checkHdr bool, body []byte, err error) {
 	app(opSendErr, m)
+	if checkHdr && !bytes.Equal(m.Header, hdr) {
+		s.mu.Lock()
+		s.errOK = false
+		s.mu.Unlock()
+		s.note("after Send failed (%v) the caller's header differs: was %s now %s", err, hx(hdr), hx(m.Header))
+	}
 	if !bytes.Equal(m.Body, body) {
 		s.mu.Lock()
 		s.errOK = false
@@ -269,7 +280,7 @@ func (s *scen) send(e msgEnd, hdr, body []byte) error {
 	m := s.mk(hdr, body)
 	err := e.SendMsg(m)
 	if err != nil {
-		s.failed(m, body, err)
+		s.failedH(m, hdr, hdr != nil, body, err)
 		return err
 	}
 	s.mu.Lock()
@@ -1058,6 +1069,73 @@ func mock(name string) func(*scen) {
 	}
 }
 
+// a raw reply whose send times out (the requester's connection is backed up) and is then sent again by the caller:
+// the failed call must leave the message exactly as it was, so that the second attempt takes the same route.
+func rawRetry(name string) func(*scen) {
+	return func(s *scen) {
+		p := wire.Protocols[name]()
+		defer p.Close()
+		_ = p.SetOption(mangos.OptionWriteQLen, 1)
+		_ = p.SetOption(mangos.OptionSendDeadline, 15*time.Millisecond)
+		rec := &mp.Recorder{}
+		a, b := mp.NewPipe(100, 0, p, rec), mp.NewPipe(101, 1, p, rec)
+		if a.Attach() != nil || b.Attach() != nil {
+			s.note("attach failed")
+			return
+		}
+		a.SetHold(true)
+		hdr := []byte{0, 0, 0, 100, 0, 0, 0, 101, 0x80, 0, 0, 9} // via pipe 100, then a hop that happens to be 101
+		var stuck *mangos.Message
+		var stuckBody []byte
+		for i := 0; i < 5 && stuck == nil; i++ {
+			body := s.body("rr", 40+i)
+			m := s.mk(hdr, body)
+			if err := p.SendMsg(m); err != nil {
+				app(opSendErr, m)
+				if !bytes.Equal(m.Header, hdr) || !bytes.Equal(m.Body, body) {
+					s.mu.Lock()
+					s.errOK = false
+					s.mu.Unlock()
+					s.note("after Send failed (%v) the caller's message differs: header was %s now %s", err, hx(hdr), hx(m.Header))
+				}
+				stuck, stuckBody = m, body
+			}
+		}
+		if stuck == nil {
+			s.note("no send timed out")
+			return
+		}
+		// the connection drains; the caller sends the very same message again
+		a.SetHold(false)
+		for a.Release(true) {
+		}
+		time.Sleep(5 * time.Millisecond)
+		rec.TakeTx()
+		if err := p.SendMsg(stuck); err != nil {
+			s.note("retry failed: %v", err)
+			app(opSendErr, stuck)
+			stuck.Free()
+			return
+		}
+		time.Sleep(5 * time.Millisecond)
+		ok := false
+		for _, tx := range rec.TakeTx() {
+			if bytes.Equal(tx.Body, stuckBody) {
+				ok = tx.Pipe == a && bytes.Equal(tx.Header, hdr[4:])
+				if !ok {
+					s.note("the retried reply went to pipe %d with header %s (want pipe 100, header %s)", tx.Pipe.ID(), hx(tx.Header), hx(hdr[4:]))
+				}
+			}
+		}
+		if !ok {
+			s.mu.Lock()
+			s.errOK = false
+			s.mu.Unlock()
+			s.note("the retried reply did not reach the requester's pipe")
+		}
+	}
+}
+
 // ------------------------------------------------------------------ main ----
 
 type job struct {
@@ -1119,6 +1197,9 @@ func jobs() []job {
 					add(tr == "tcp" || p[0] == "push" || p[0] == "pub", "bulk-drop/"+p[0], bulkDrop(p[0], p[1]))
 				}
 			}
+		}
+		for _, n := range []string{"xrep", "xrespondent"} {
+			js = append(js, job{"raw-retry/" + n + sfx, "mock", rawRetry(n)})
 		}
 		for _, n := range wire.AllNames {
 			js = append(js, job{"send-outcomes/" + n + sfx, "inproc", sendOutcomes(n)})
